@@ -127,6 +127,19 @@ Proof.
   - split; [reflexivity|]. split; [intros [|n] k ks; reflexivity | reflexivity].
 Qed.
 
+(* a callable with several required parameters (a "multiple-input model"): this Model class supports one input only, and every
+   way of calling forward is refused -- never a silent binding of the input to one of them *)
+Theorem forward_refuses_several_inputs nda sg npos kws :
+  NoDup nda -> (2 <= length nda)%nat -> forward_accepts nda sg npos kws = false.
+Proof.
+  intros Hnd Hl. destruct nda as [|a [|b r]]; simpl in Hl; try lia.
+  unfold forward_accepts. destruct npos as [|[|n]]; destruct kws as [|k [|k' ks]]; try reflexivity.
+  unfold strs_all. cbn [forallb].
+  destruct (String.eqb k a) eqn:Ea; [|reflexivity]. destruct (String.eqb k b) eqn:Eb; [|reflexivity].
+  apply String.eqb_eq in Ea. apply String.eqb_eq in Eb. subst a b.
+  inversion Hnd as [|x l Hin _]; subst. exfalso. apply Hin. left. reflexivity.
+Qed.
+
 (* the old test (by name) and today's (by kind) agree exactly on the signatures that follow the naming
    convention: a parameter is called args/kwargs iff it is variadic *)
 Theorem by_name_agrees_under_convention sg :
